@@ -1099,7 +1099,7 @@ def check_C09(ctx):
                      "MultimapValue::len() checked, commit/abort/reopen in between, judged by TLC against Kv.tla")
 
 
-def run_paths(ctx, num, depth=22):
+def run_paths(ctx, num, depth=26):
     """Specification -> implementation: behaviours TLC generates from Kv.tla (simulation mode) executed on the real code"""
     out = os.path.join(ctx.work, "paths.txt")
     metadir = os.path.join(ctx.work, "meta-paths")
@@ -1384,6 +1384,9 @@ def check_C03(ctx):
     run_conc(ctx, tiered(ctx, 6, 40), tiered(ctx, 300, 1500))
     pager_design(ctx)
     run_sched(ctx, "begin_read", tiered(ctx, 40, 400))
+    # spec -> impl: behaviours TLC generates from Kv.tla (read transactions begun at any moment, reading while later
+    # transactions commit, abort and restore) executed on the real code, every result compared
+    run_paths(ctx, tiered(ctx, 150, 2000))
     run_kv_walk(ctx, "mixed", tiered(ctx, 30, 300), tiered(ctx, 500, 1500), page_sizes="512,4096", caches="1048576,0")
     k = ctx.notes.get("event_kinds", {})
     ctx.cov["distinct_nontrivial"] += sum(k.get(x, 0) for x in ("cend", "br", "dump", "abort"))
@@ -1399,7 +1402,9 @@ def check_C03(ctx):
                      "non-durable, 15% aborted; 4 readers beginning at any time and dumping twice) linearized from call stamps: a "
                      "begin_write inside another transaction, a snapshot outside [last commit returned before the call, last commit begun "
                      "before it returned], a snapshot older than one an earlier reader saw, a torn or changing snapshot are all rejected by "
-                     "TLC; sequential histories "
+                     "TLC; behaviours generated by TLC from Kv.tla (MC_KvPaths.tla: two read transactions begun, used and dropped at any "
+                     "point of write transactions that commit durably or not, abort, restore savepoints) replayed on the code with every "
+                     "result compared; sequential histories "
                      "with commits of all durabilities, aborts and readers validated against the serial order of Kv.tla (hist append-only, "
                      "every transaction begun after a commit sees it)")
 
